@@ -2,19 +2,19 @@ SPECIFICATION Spec
 CONSTANTS
   PosPeriod = 1
   NegPeriod = 0
-  MaxClock = 2
-  MaxCalls = 3
+  MaxClock = 0
+  MaxCalls = 4
   AllowRChoices = {{}}
   AllowSChoices = {{"R"}}
   RecogAInit = {TRUE}
   ChainPeers = {"A"}
-  MaxChain = 1
+  MaxChain = 0
   MaxErr = 0
-  GuardOn = TRUE
-  Nonces = {1}
-  HsBudget = 0
-  MaxDials = 0
-  MaxAdvDials = 2
+  GuardOn = FALSE
+  Nonces = {1, 2}
+  HsBudget = 1
+  MaxDials = 1
+  MaxAdvDials = 1
   MaxDrops = 0
   Handlers = {"h1"}
   CancelHandlers = {}
@@ -23,7 +23,7 @@ CONSTANTS
   Cap = 1
   SecondCheck = TRUE
   Filter = TRUE
-  MaxTicks = 0
+  MaxTicks = 1
   Backoff1 = FALSE
   Backoff2 = TRUE
   CancelMsgs = {}
